@@ -19,7 +19,8 @@ func init() {
 			"C19.3 the method of every response type equals the method the handler is dispatched for (or the request message's own method in the dispatcher); " +
 			"C19.4 the mapped address in Binding/Allocate responses is AddrIPPort(req.SrcAddr), the relayed address is AddrIPPort(alloc.RelayAddr) of the allocation just created, the LIFETIME is the duration handed to CreateAllocation; " +
 			"C19.5 SetResponseCache stores the request's transaction id and the attribute slice that is sent; on the existing-allocation path success is sent only on the id==TransactionID edge, otherwise 437, and no state effect lies on either path; " +
-			"C19.6 (=C04.3) the fingerprint under which the request's allocation (and its cached answer) is looked up is injective in the 5-tuple.",
+			"C19.6 (=C04.3) the fingerprint under which the request's allocation (and its cached answer) is looked up is injective in the 5-tuple.; " +
+			"C19.7 every response sent by package server is assembled by buildMsg (transaction id first), never by hand.",
 		NotCovered: "reachability of the advertised relayed address from the network; what the relay generator returns; exactly-once delivery of a response.",
 		Run:        runC19,
 	})
@@ -66,9 +67,9 @@ func runC19(c *Ctx) {
 			return mp
 		}
 		var reqMsg ssa.Value
-		w.eachInstr(root, func(in ssa.Instruction) {
+		w.eachInstrDeep(root, func(in ssa.Instruction) {
 			if call, ok := in.(*ssa.Call); ok && call.Call.StaticCallee() == nil && !call.Call.IsInvoke() && len(call.Call.Args) == 2 && isPtrToNamed(call.Call.Args[1].Type(), msgT) {
-				reqMsg = call.Call.Args[1]
+				reqMsg = w.resolveLoad(call.Call.Args[1])
 			}
 		})
 		return reqMsg
@@ -105,7 +106,7 @@ func runC19(c *Ctx) {
 		}
 		return false
 	}
-	for _, lc := range w.liftCalls(buildMsg, stopLift, 3) {
+	for _, lc := range w.liftCalls(buildMsg, stopLift, 5) {
 		fn := lc.fn
 		if fnPkgPath(fn) != serverPath {
 			continue
@@ -198,6 +199,27 @@ func runC19(c *Ctx) {
 			rk := w.key(root.Params[0])
 			if w.key(args[0]) == rk+".Conn" && w.key(args[1]) == rk+".SrcAddr" {
 				c.OK("C19.2", fname(fn), "send to", pos, "(req.Conn, req.SrcAddr)")
+				return
+			}
+			// a stage with several call sites inside the handler: the arguments expressed at
+			// each chain of calls from the handler
+			nUp, okUp := 0, true
+			for _, lc := range w.liftCalls(cs.Common().StaticCallee(), isReq, 5) {
+				if lc.orig != cs {
+					continue
+				}
+				nUp++
+				if !isReq(lc.fn) {
+					okUp = false
+					continue
+				}
+				rk2 := w.key(lc.fn.Params[0])
+				if w.key(lc.args[0]) != rk2+".Conn" || w.key(lc.args[1]) != rk2+".SrcAddr" {
+					okUp = false
+				}
+			}
+			if nUp > 0 && okUp {
+				c.OK("C19.2", fname(fn), "send to", pos, "(req.Conn, req.SrcAddr) at every call chain from the handler")
 			} else {
 				c.Bad("C19.2", fname(fn), "send to", pos, "response is sent on "+w.key(args[0])+" to "+w.key(args[1])+", not on req.Conn to req.SrcAddr")
 			}
@@ -276,6 +298,7 @@ func runC19(c *Ctx) {
 	// fingerprint of the request's 5-tuple: two different tuples must not share one
 	// (shared with C04.3)
 	ruleFingerprintDeps(c, "C19.6")
+	ruleResponsesBuiltByBuildMsg(c, "C19.7")
 }
 
 func rawBase(v ssa.Value) ssa.Value {
@@ -814,4 +837,145 @@ func (w *World) msgHasErrorCode(v ssa.Value, k int64, depth int) bool {
 		}
 	}
 	return true
+}
+
+// errorCodesAt: the constant error codes the call can put into a response: the Code of the
+// &ErrorCodeAttribute{…} literals among the attributes of a buildMsg call made here, or made
+// inside the (unexported, module) helper called here with the Code taken from one of its
+// parameters (then: the constant passed at this call). builds=false when the call builds no
+// error response at all.
+func (w *World) errorCodesAt(call *ssa.Call, buildMsg *ssa.Function, depth int) (codes []int64, builds bool) {
+	h := call.Call.StaticCallee()
+	if h == nil || depth > 3 {
+		return nil, false
+	}
+	if h == buildMsg {
+		fn := call.Parent()
+		w.eachInstr(fn, func(in ssa.Instruction) {
+			al, ok := in.(*ssa.Alloc)
+			if !ok {
+				return
+			}
+			if n := namedOf(al.Type()); n == nil || n.Obj().Name() != "ErrorCodeAttribute" {
+				return
+			}
+			if !sliceHasElem(call.Call.Args[2], al) {
+				return
+			}
+			builds = true
+			if k, ok := constInt(w.resolveLoad(w.literalOf(al).fields["Code"])); ok {
+				codes = append(codes, k)
+			} else {
+				codes = append(codes, -1)
+			}
+		})
+		return codes, builds
+	}
+	if !w.IsMod[h] || len(h.Blocks) == 0 || h.Object() == nil || h.Object().Exported() {
+		return nil, false
+	}
+	w.eachInstr(h, func(in ssa.Instruction) {
+		inner, ok := in.(*ssa.Call)
+		if !ok || inner.Call.StaticCallee() == nil {
+			return
+		}
+		if inner.Call.StaticCallee() == buildMsg {
+			w.eachInstr(h, func(in2 ssa.Instruction) {
+				al, ok := in2.(*ssa.Alloc)
+				if !ok {
+					return
+				}
+				if n := namedOf(al.Type()); n == nil || n.Obj().Name() != "ErrorCodeAttribute" {
+					return
+				}
+				if !sliceHasElem(inner.Call.Args[2], al) {
+					return
+				}
+				builds = true
+				cv := w.literalOf(al).fields["Code"]
+				if cv == nil {
+					codes = append(codes, -1)
+					return
+				}
+				if k, ok := constInt(w.translate(w.resolveLoadLocal(cv), h, call)); ok {
+					codes = append(codes, k)
+				} else {
+					codes = append(codes, -1)
+				}
+			})
+		}
+	})
+	return codes, builds
+}
+
+// ruleResponsesBuiltByBuildMsg (C19.7): buildMsg is the one place that orders a response's
+// attributes — the message with the request's transaction id first, then the type, then the
+// rest — and C19.1/C19.3 judge its arguments. A response assembled by hand and handed to
+// buildAndSend can put an attribute whose encoding depends on the transaction id
+// (XOR-MAPPED/PEER/RELAYED-ADDRESS of an IPv6 address) before the id is set. So every message
+// sent by buildAndSend / buildAndSendErr in package server must be the result of buildMsg
+// (directly, or through a helper every return of which is one).
+func ruleResponsesBuiltByBuildMsg(c *Ctx, rule string) {
+	w := c.W
+	c.Rule(rule, "who may build a response: the attribute list handed to every buildAndSend / buildAndSendErr call of package server is the result of buildMsg (directly, or of a helper all of whose returns are), which writes the transaction id before any attribute that depends on it", 6)
+	buildMsg := w.Func("server", "", "buildMsg")
+	bas := w.Func("server", "", "buildAndSend")
+	base := w.Func("server", "", "buildAndSendErr")
+	serverPath := w.tpkg("server").Path()
+	var built func(v ssa.Value, d int) bool
+	built = func(v ssa.Value, d int) bool {
+		v = w.resolveLoad(v)
+		if p, isP := v.(*ssa.Parameter); isP && d < 4 {
+			// a forwarding helper: judged at its callers
+			sites := w.callsTo(p.Parent())
+			if len(sites) == 0 || p.Parent().Object() == nil || p.Parent().Object().Exported() {
+				return false
+			}
+			for _, cs := range sites {
+				if i := paramIndex(p); i < 0 || i >= len(cs.Common().Args) || !built(cs.Common().Args[i], d+1) {
+					return false
+				}
+			}
+			return true
+		}
+		call, _ := callOf(v)
+		if call == nil || d > 4 {
+			return false
+		}
+		h := call.Call.StaticCallee()
+		if h == buildMsg {
+			return true
+		}
+		if h == nil || !w.IsMod[h] || len(h.Blocks) == 0 {
+			return false
+		}
+		rets := returnsOf(h)
+		if len(rets) == 0 {
+			return false
+		}
+		for _, r := range rets {
+			if len(r.Results) == 0 || !built(r.Results[0], d+1) {
+				return false
+			}
+		}
+		return true
+	}
+	for _, target := range []*ssa.Function{bas, base} {
+		idx := 2
+		if target == base {
+			idx = 3
+		}
+		for _, cs := range w.callsTo(target) {
+			fn := cs.Parent()
+			if fnPkgPath(fn) != serverPath || idx >= len(cs.Common().Args) {
+				continue
+			}
+			c.Anchor(rule, fname(w.bodyRoot(fn)))
+			if built(cs.Common().Args[idx], 0) {
+				c.OK(rule, fname(fn), "message", w.instrPos(cs), "built by buildMsg")
+			} else {
+				c.Bad(rule, fname(fn), "message", w.instrPos(cs), "the response sent here is not built by buildMsg ("+w.desc(cs.Common().Args[idx])+"): nothing guarantees that the transaction id is written before the attributes whose encoding depends on it (an XOR-ed IPv6 address would be reported wrong), nor that id and type are the request's")
+			}
+		}
+	}
 }
